@@ -550,7 +550,7 @@ def digestInt (xs : List Int) : Nat := digestNat (xs.map fun v => (v + 214748364
 
 /-- `hhist GRID IS3D STRUCTURED FOOTER STRIDE LEN ILFIELD ; c:d c:d … ; hole hole … ; op ; op …` with ops `hdr T`, `hdrall T`, `tfv F`,
 `rvh 0|1`, `rvh1 0|1 F`, `clear`: the header-reading state machine of one reader on a file whose footer array `k` holds `(k+1)·10⁶ + p + 1` at grid
-slot `p` (0 at holes).  Answer per op: outcome, digest of the values, range reads issued. -/
+slot `p` (0 at holes and at the listed `zK:P` entries).  Answer per op: outcome, digest of the values, range reads issued. -/
 def handleHHist (line : String) : String :=
   match line.splitOn ";" with
   | head :: rowsS :: holesS :: ops =>
@@ -562,10 +562,17 @@ def handleHHist (line : String) : String :=
         | [c, d] => ((c.toInt?.getD 0, d.toNat?.getD 0) : Headers.Row)
         | _ => (0, 0)
       let holes := (toks holesS).filterMap String.toNat?
+      -- `zK:P`: array `K` stores 0 at the populated slot `P` (a header value that happens to be zero)
+      let zeros : List (Nat × Nat) := (toks holesS).filterMap fun w =>
+        if w.startsWith "z" then
+          match (w.drop 1).toString.splitOn ":" with
+          | [k, q] => (k.toNat?.bind fun a => q.toNat?.map fun b => (a, b))
+          | _ => none
+        else none
       let h : HeaderReads.HFile :=
         { tbl := rows, grid := grid, is3d := is3d == 1, structured := structured == 1,
           hole := fun p => holes.contains p, footer := footer, stride := stride, len := len,
-          val := fun k p => if holes.contains p then 0 else ((k + 1) * 1000000 + p + 1 : Nat) }
+          val := fun k p => if holes.contains p || zeros.contains (k, p) then 0 else ((k + 1) * 1000000 + p + 1 : Nat) }
       let ilArray := (HeaderReads.arrayOf h ilField).getD 0
       let parsed := ops.map fun o =>
         match toks o with
